@@ -77,6 +77,7 @@ class C08(Check):
                     "k": (index // 2) % 400 if tier == "thorough" else rng.randrange(0, 400)},
                 "traffic_in": rng.choice([1, 3, 6]), "traffic_out": rng.choice([0, 2, 5]),
                 "rst_gap": rng.choice([0.0, 0.0005, 0.003, 0.02, 0.08]),
+                "oversize": rng.random() < 0.4,     # one queued message is larger than the send-buffer limit
                 "write_stall": rng.choice([0.0, 0.0, 0.05, 0.3]),
                 # restart the same object the moment it reports Closed (as Diameter.context() does),
                 # instead of waiting until every resource has been seen released
@@ -90,6 +91,8 @@ class C08(Check):
                 "sched": sched, "knobs": knobs,
                 "max_steps": 4_000_000 + int(min(12_000_000, 400.0 / knobs["STATE_MACHINE_TICKER"])),
                 "net": {"max_latency": rng.choice([0.0005, 0.003]), "connect_timeout": ctimeout,
+                        "p_partial_write": rng.choice([0.0, 0.0, 0.5]),
+                        "p_one_byte_write": rng.choice([0.0, 0.0, 0.5]),
                         "personality": rng.choice(["linux", "linux", "linux", "windows"]) if point == "connecting" else "linux"},
                 "restart": True, "watchdog": 30, "horizon": 90.0}
 
@@ -199,7 +202,8 @@ class C08(Check):
                 def flood():
                     w.node.send_messages([DiameterRequest(application_id=APP_ID, command_code=316, avps=[
                         SessionIdAVP(("n;2;%d" % i).encode()), OriginHostAVP(NODE_HOST), OriginRealmAVP(NODE_REALM),
-                        DestinationRealmAVP(PEER_REALM), DiameterAVP(code=99998, data=bytes(300))]) for i in range(12)])
+                        DestinationRealmAVP(PEER_REALM),
+                        DiameterAVP(code=99998, data=bytes(4000 if (i == 5 and scn.get("oversize")) else 300))]) for i in range(12)])
                 fl = w.call("flooder", flood)
                 sim.wait_until(lambda: fl["t1"] is not None, 2.0, poll=0.0002)
             if point == "open_parked":
@@ -280,6 +284,18 @@ class C08(Check):
                     th.stall_plan = sorted([p for p in (th.stall_plan or []) if p[0] < (1 << 59)] + [(th.steps + late["at"], late["dur"])])
                     late_rec.append(rec)
                 w.call("late_starter", lambda: (sim.sleep(late["after"]), start_late()))
+            if scn.get("write_stall") and cause in ("peer_rst", "peer_eof", "local_close") and \
+                    point in ("open_backlog", "open_traffic") and w.peer.sock is not None and w.peer.sock.peer is not None:
+                # the peer has stopped reading: output is still pending in the transport when the end comes
+                w.net.stall_writes(w.peer.sock.peer, scn["write_stall"])
+
+                def flood2():
+                    w.node.send_messages([DiameterRequest(application_id=APP_ID, command_code=316, avps=[
+                        SessionIdAVP(("n;3;%d" % i).encode()), OriginHostAVP(NODE_HOST), OriginRealmAVP(NODE_REALM),
+                        DestinationRealmAVP(PEER_REALM)]) for i in range(4)])
+                fl2 = w.call("flooder2", flood2)
+                sim.wait_until(lambda: fl2["t1"] is not None, 1.0, poll=0.0002)
+                sim.sleep(3 * tick)
             # ---- apply the cause ---------------------------------------------
             st["cause_applied_at"] = sim.now
             st["state_at_cause"] = w.state()
